@@ -15,14 +15,18 @@ import numpy as np
 
 from harness import core
 from harness import pandora_util as pu
+from harness.props import c08_pipeline
 
-GEN = ["gen_callbacks"]
-EXTRACT_FILES = ["X08"]
-DRIVERS = ["x08"]
+# gen_flags / gen_refine_consts / gen_constants: the constants of the tree under test used by the composed
+# pipeline model (Extract/X21.v)
+GEN = ["gen_callbacks", "gen_flags", "gen_refine_consts", "gen_constants"]
+EXTRACT_FILES = ["X08", "X21"]
+DRIVERS = ["x08", "x21"]
 RULE = ("random legal pipelines (sad/ssd/census/zncc, cbca, confidence steps, wta, median/bilateral, vfit/quadratic, "
         "cross-checking with/without mc-cnn/sgm filling, 2-scale multiscale) on random 10-14 x 14-20 image pairs with "
         "masks on both sides; each case = one run + its mirrored run (+ the run without validation); non-trivial = the "
-        "left and right disparity maps differ and both contain valid pixels; distinct by (pipeline, images seed)")
+        "left and right disparity maps differ and both contain valid pixels; distinct by (pipeline, images seed); "
+        + c08_pipeline.RULE_PIPELINE)
 ASSUMES = [
     "the step functions are arbitrary in the theorem; their determinism on the real kernels is what the metamorphic "
     "runs sample",
@@ -184,6 +188,16 @@ def diff_products(a, b):
 
 
 def run(ctx):
+    # extra stream: the composed whole-pipeline model against whole real runs (harness/props/c08_pipeline.py)
+    if ctx.replay_case is not None and ctx.replay_case.get("stream") == "pipeline":
+        c08_pipeline.run_stream(ctx, 1)
+        return
+    run_wiring(ctx)
+    if ctx.replay_case is None:
+        c08_pipeline.run_stream(ctx, 80 if ctx.tier == "quick" else 1500)
+
+
+def run_wiring(ctx):
     import pandora
 
     rng = ctx.rng
